@@ -605,6 +605,11 @@ class AsyncFIXConnection:
         if end_seq_no == 0:
             end_seq_no = sys.maxsize
         self.log.info("Received resent request from %s to %s", begin_seq_no, end_seq_no)
+        if begin_seq_no < 1 or begin_seq_no >= self._session.next_num_out:
+            self.log.warning("ResendRequest for messages never sent, ignored")
+            if self._connection_state != ConnectionState.RESENDREQ_AWAITING:
+                await self._state_set(ConnectionState.ACTIVE)
+            return
         journal_replay_msgs = self._journaler.recover_messages(
             self._session, MessageDirection.OUTBOUND, begin_seq_no, end_seq_no
         )
